@@ -33,7 +33,6 @@ import (
 	"regexp"
 	"runtime"
 	"runtime/debug"
-	"runtime/pprof"
 	"sort"
 	"strconv"
 	"strings"
@@ -1251,7 +1250,6 @@ func (w *worker) runCase(res *mon.Result, c Case, scratch string, watch *gnWatch
 		spool := filepath.Join(scratch, "spool", fmt.Sprintf("%d-%s", c.Index, syntax))
 		var t *tbl
 		var err error
-		tb := time.Now()
 		if syntax == "toml" {
 			t, err = buildFromTOML(tomlText, spool)
 		} else if c.ViaInit {
@@ -1261,7 +1259,6 @@ func (w *worker) runCase(res *mon.Result, c Case, scratch string, watch *gnWatch
 		}
 		w.pending = append(w.pending, pendingShutdown{t, time.Now()})
 		res.Count("tables_built_"+syntax, 1)
-		res.Count("ms_building_"+syntax, int(time.Since(tb).Milliseconds()))
 		if err != nil {
 			res.Violate(syntax+":rejected:"+c.Kind, fmt.Sprintf("a configuration that uses documented options with legal values only is rejected in its %s form: %v", syntax, err), witness)
 			continue
@@ -1577,11 +1574,6 @@ func main() {
 	res.Assume("grafanaNet routes are inspected but never shut down (known defect F7); destinations point at loopback addresses nothing listens on (127.20-219.x.y, ports 1-16, checked at start-up)")
 	res.Assume("the read-only accessors under /verif/access/{destination,route,nsqd,cmd/carbon-relay-ng} copy fields and call readConfigFile; they change nothing")
 
-	if pf := os.Getenv("C20_PROF"); pf != "" {
-		f, _ := os.Create(pf)
-		pprof.StartCPUProfile(f)
-		defer pprof.StopCPUProfile()
-	}
 	debug.SetGCPercent(400) // many short-lived tables; memory is not the scarce resource here
 	mon.InitRepo()
 	stdlog.SetOutput(io.Discard)
